@@ -92,3 +92,15 @@ Theorem unbuffered_signal_refuted :
   let st := wrun 0 (winit 1) [true; false; false; true] in
   w_free st = true /\ stuck st = true.
 Proof. vm_compute. split; reflexivity. Qed.
+
+(* C13: the pong timer can be started, without a probe being sent, only while the send loop sits in its "window is
+   full" wait. Whenever it sits there with a window that has meanwhile been freed (and the receive loop has finished
+   signalling), a wake-up is pending: it leaves the wait before it can handle another timer tick there *)
+Theorem full_window_wait_is_about_to_end : forall cap acks sched,
+  cap >= 1 -> let st := wrun cap (winit acks) sched in
+  w_spc st = SWait -> w_free st = true -> w_rsig st = false -> w_pend st > 0.
+Proof.
+  intros cap acks sched Hcap st Hw Hf Hr.
+  assert (HI : WInv st) by (apply winv_run; [assumption | apply winv_init]).
+  destruct HI as [_ H2]. destruct (H2 Hf Hr) as [Hwait _]. exact (Hwait Hw).
+Qed.
